@@ -10,23 +10,28 @@ P("C23",
   level_text="Proved for every script of the model (any moves, any order/delay of the two memories, any back-pressure): "
              "c23_serial_one_ack (arrived moves = acknowledged ++ in-progress ++ waiting, in order; each ack carries the ID of the "
              "move it closes and goes to its requester; no move acknowledged twice; one at a time, also with arbitrary injected "
-             "responses); when every ByteSize is a multiple of both granularities, c23_nothing_else_written (every write request "
-             "lies inside the destination range of an arrived move, on its destination side) and c23_transfer_structure; and for "
-             "moves between the two sides with ranges inside the memories and memories that answer exactly the requests they were "
-             "sent: c23_copy_exact (when an acknowledgment is sent the destination range holds exactly the bytes of the source "
-             "range, for every order in which the memories answer) and c23_source_stable (the source memory is not written while "
-             "the move is in progress, so these are the bytes held at acceptance). c23_unaligned_size_refuted, "
-             "c23_small_buffer_refuted and c23_same_side_overlap_refuted (same-side move onto an overlapping range: smeared copy, "
-             "F-C23-3) are the confirmed defects; same-side moves with disjoint ranges are covered by the tie only. Model and implementation are compared exactly: every helper "
-             "result (incl. panics), and per tick all drained requests with their generated IDs, acknowledgments, progress and "
-             "active flags, the memory images at every acknowledgment and at the end.",
+             "responses); when every ByteSize is a multiple of both granularities, c23_nothing_else_written and "
+             "c23_transfer_structure; and c23_copy_exact / c23_copy_exact_in_domain (when an acknowledgment is sent the destination "
+             "range holds exactly the bytes of the source range, for every order in which the memories answer) with "
+             "c23_source_stable (the source range is not written while the move is in progress, so these are the bytes held at "
+             "acceptance) for every move that is between the two sides OR inside one side with non-overlapping ranges. "
+             "c23_domain_is_complement_of_findings: for accepted moves the hypothesis of the copy theorem is exactly the negation "
+             "of the three known-finding shapes (F-C23-1 size not a multiple, F-C23-2 buffer below a granularity, F-C23-3 same "
+             "side overlapping), each with its _refuted witness confirmed on the real component. Model and implementation are "
+             "compared exactly: every helper result (incl. panics), and per tick all drained requests with their generated IDs, "
+             "acknowledgments, progress and active flags, the memory images at every acknowledgment and at the end. "
+             "F-C23-3 is left as a known finding: rejecting overlapping same-side moves at parse time would turn moves that work "
+             "today (destination below the source, or a buffer that holds the whole range) into panics, and reading the whole "
+             "source before the first write deadlocks whenever ByteSize exceeds BufferSize. The real repair is a direction-aware "
+             "(descending) copy for forward overlaps, which changes readFromSrc, writeToDst and the forward-only sliding buffer "
+             "(bufferMoveOffsetForwardTo) - well beyond a 20-line patch.",
   level_note="Trusted: Coq kernel + vm_compute; the Go harness (scripted memories, verif export wrappers that only convert types); "
              "the hand-written model of comp.go / ctrlparsemw.go / datatransfermw.go.",
   assumptions=["no control traffic (the data mover stays Enabled); single-port mappers on both sides",
                "the memories answer every read with their current content and apply every write when they answer it, "
                "each request answered exactly once, in any order and after any delay",
-               "c23_copy_exact / c23_source_stable: moves go from one side to the other (same-side moves are covered by the tie only), "
-               "no responses are injected, nobody but the data mover writes the two memories",
+               "c23_copy_exact / c23_source_stable: no responses are injected (the memories answer exactly the requests they were sent), "
+               "nobody but the data mover writes the two memories",
                "sequential ID generator; tracing calls are no-ops without hooks (checked by the exact ID tie)"],
   trusted=["modelled, not verified: mem/datamover/comp.go (buffer helpers, alignAddress, resolveByteGranularity), ctrlparsemw.go "
            "(parseFromCP, finishTransaction), datatransfermw.go (Tick and the four steps); ctrlmiddleware.go is not modelled"],
